@@ -790,6 +790,39 @@ def run(ctx):
         broken.append("correspondence M3 (de / string conversions): model and compiled code disagree on %d requests" % len(r["disagreements"]))
     if syn["disagreements"]:
         broken.append("correspondence M2 (render of newtypes): model and implementation disagree on %d cases" % len(syn["disagreements"]))
+    # an open definition is attributed to a listed finding by the finding's mechanism predicate on the dump
+    def enc_attribute(c, key):
+        es = irutil.entries(c.dump)
+        t = c.dump["ref_to_id"].get("#" if key == "#" else "def:" + key)
+        seen = set()
+        def reach(i, fuel=60):
+            """entries reachable from the definition's type (members, variants, items)"""
+            if i in seen or i not in es or fuel <= 0: return
+            seen.add(i); e = es[i]
+            for k in ("type_id", "id", "key", "value"):
+                if isinstance(e.get(k), int): reach(e[k], fuel - 1)
+            for p in e.get("props") or []: reach(p["type_id"], fuel - 1)
+            for v in e.get("variants") or []:
+                dt = v["details"]
+                if isinstance(dt, dict):
+                    if "item" in dt: reach(dt["item"], fuel - 1)
+                    for x in dt.get("tuple") or []: reach(x, fuel - 1)
+                    for p in dt.get("struct") or []: reach(p["type_id"], fuel - 1)
+            for x in e.get("ids") or []: reach(x, fuel - 1)
+        if t is not None: reach(t)
+        pairs = shared_variant_types(c.dump)
+        for i in seen:
+            e = es[i]
+            if e["kind"] == "enum" and isinstance(e.get("tag"), dict):
+                tg = (e["tag"].get("adjacent") or [e["tag"].get("internal")])[0]
+                if any(tg == p[0] for p in pairs) and "C05-variant-shared-inline-type" in findings: return "C05-variant-shared-inline-type"
+                if "adjacent" in e["tag"] and not e.get("deny") and '"additionalProperties": false' in json.dumps(docs[c.tag]) \
+                        and "C05-adjacent-closed-wrapper" in findings: return "C05-adjacent-closed-wrapper"
+        return None
+    enc_known = {}
+    for c, k in list(enc_open):
+        fid = enc_attribute(c, k)
+        if fid: enc_known[fid] = enc_known.get(fid, 0) + 1; enc_open.remove((c, k))
     if enc_open:
         # the hypothesis of C05E.enc_sound is false on a real (schema, IR) pair inside encB's fragment: a constraint the schema
         # states is not represented in the type typify generated for it
@@ -847,7 +880,7 @@ def run(ctx):
                "tvh_m2 (syn summary of the emitted items), rustc"],
            "axioms": st.get("axioms", {}),
            "evaluations": len(reqs), "distinct_nontrivial": distinct,
-           "enc_translation_validation": dict(enc_stats, open_definitions=[[c.tag, k] for c, k in enc_open[:20]],
+           "enc_translation_validation": dict(enc_stats, open_definitions=[[c.tag, k] for c, k in enc_open[:20]], open_attributed_to_findings=enc_known,
                                               theorem="C05E.enc_sound: AllEnc & encB(S, T) & de T j = ok => validE S j != some false (all documents, IRs, schemas, types, JSON, fuels)"),
            "rule": "cases = hand-written schemas (one per enforced construct, multi-byte boundaries), repository fixtures, gen_universe(FEATURE_SETS['c05']); "
                    "per root/definition type: hand probes + gen_boundary + gen_valid instances, each mutated by the eight targeted mutators (twice) and a "
